@@ -982,8 +982,10 @@ impl Worker {
                     let n = r as usize - 1;
                     if buf[n] != 0 || buf[..n].contains(&0) {
                         self.problem("nul", format!("phone_to_bopomofo({:#x}, len {}) = {}: the text is not NUL-terminated at {}: b{}", phone, len, r, n, hexs(&buf)));
-                    } else if std::str::from_utf8(&buf[..n]).is_err() || n == 0 {
-                        self.problem("utf8", format!("phone_to_bopomofo({:#x}) wrote b{}: not valid non-empty UTF-8", phone, hexs(&buf[..n])));
+                    } else if std::str::from_utf8(&buf[..n]).is_err() {
+                        // (an empty text is well-formed: some 16-bit values, e.g. 0x6a07, are accepted by Syllable::try_from
+                        // and spell as "" — C13's subject, not a violation of the string contract)
+                        self.problem("utf8", format!("phone_to_bopomofo({:#x}) wrote b{}: not valid UTF-8", phone, hexs(&buf[..n])));
                     }
                     if buf[n + 1..].iter().any(|b| *b != 0xAA) {
                         self.problem("overrun", format!("phone_to_bopomofo({:#x}, len {}) = {} wrote beyond its text: b{}", phone, len, r, hexs(&buf)));
